@@ -483,3 +483,28 @@ func roleParam(f *ssa.Function, i int) *ssa.Parameter {
 	}
 	return f.Params[i]
 }
+
+// roleArgs: arguments given in the parameter order of the pinned tree, arranged for f's present parameter order
+// (a parameter list that was only reordered keeps its names; otherwise the order is taken as unchanged).
+func roleArgs(f *ssa.Function, ref []sval) []sval {
+	if f == nil || len(ref) != len(f.Params) {
+		return ref
+	}
+	out := make([]sval, len(ref))
+	used := map[int]bool{}
+	for i := range ref {
+		p := roleParam(f, i)
+		placed := false
+		for j, q := range f.Params {
+			if q == p && !used[j] {
+				out[j] = ref[i]
+				used[j] = true
+				placed = true
+			}
+		}
+		if !placed {
+			return ref
+		}
+	}
+	return out
+}
